@@ -13,6 +13,7 @@ M = {
  "m14-always-not-bumped": ("C14", "src/state.rs", "        if f.name.as_str() == ALWAYS {\n            if let Some(env_runid) = runid {", "        if f.name.as_str() == ALWAYS && false {\n            if let Some(env_runid) = runid {"),
  "m16-deferred-target-txn": ("C16", "src/builder.rs", "                let mut ptx = ProcessTransaction::new(*ps, TransactionBehavior::Immediate)\n                    .map_err(RedoError::opaque_error)?;\n                ptx.set_drop_behavior(DropBehavior::Commit);\n                let mut f = state::File::from_name(&mut ptx, t, true)?;", "                let mut ptx = ProcessTransaction::new(*ps, TransactionBehavior::Deferred)\n                    .map_err(RedoError::opaque_error)?;\n                ptx.set_drop_behavior(DropBehavior::Commit);\n                let mut f = state::File::from_name(&mut ptx, t, true)?;"),
  "m17-ood-commits-checked": ("C17", "src/bin/redo/ood.rs", "        .set_checked(|f, _| {\n            cache.borrow_mut().insert(f.id());\n            Ok(())\n        })", "        .set_checked(|f, ptx| {\n            cache.borrow_mut().insert(f.id());\n            f.set_checked(ptx.state().env());\n            f.save(ptx)\n        })"),
+ "m15-no-id-dedupe": ("C15", "src/builder.rs", "                if !seen_ids.insert(f.id()) {\n                    continue;\n                }\n", ""),
  "m13-ext-order-reversed": ("C13", "src/paths.rs", None, None),
 }
 def sh(cmd, **kw): return subprocess.run(cmd, stdout=subprocess.PIPE, stderr=subprocess.STDOUT, text=True, **kw)
